@@ -55,6 +55,107 @@ def replay(pid, cfg, path, arkh, tmp):
     return L.run_check(pid, "quick", int(os.environ.get("VERIF_SEED", "20260930")), None)
 
 
+def shrink_twin(pid, out, tier, seed, arkh, tmp):
+    """C15 read off the implementation alone: the same history with and without its Shrink calls has the
+    same outcome at every step (up to iteration order), see reset_twin for what is compared."""
+    reset_twin(pid, out, tier, seed, arkh, tmp, mode="shrink")
+
+
+def reset_twin(pid, out, tier, seed, arkh, tmp, mode="reset"):
+    """C16, second sentence, read off the implementation alone: after Reset every history has the same
+    outcome as on a new world, up to the identity of entity handles and iteration order. `arkh twin`
+    runs a random history on world A, resets it, then generates a second history online against A and
+    mirrors every line on a brand-new world B. Compared per step: which calls panic, results (entities
+    mapped to the index of the handle in issue order; whole-query results as multisets; results that
+    depend on iteration order or on capacities - EntityAt, Entity, Shrink, Stats - only by their
+    failure flag), the callback log as a multiset, liveness/components/values/targets of every issued
+    handle, the number of used entities and the lock flag."""
+    n = 60 if tier == "quick" else 800
+    wd = os.path.join(tmp, "twin")
+    os.makedirs(wd, exist_ok=True)
+    rc, o = L.sh([arkh, "twin", "-mode", mode, "-seed", str(seed + 5), "-n", str(n), "-out", wd], timeout=1800)
+    if rc != 0:
+        p = L.write_replay(pid, "stream", dict(detail="arkh twin failed: " + o[-1500:]))
+        out["violations"].append((p, "no-failing-input-found")); return
+    scripts = L.read_blocks(os.path.join(wd, "twin_scripts.txt"))
+    ta = L.read_blocks(os.path.join(wd, "twin_a.txt"))
+    tb = L.read_blocks(os.path.join(wd, "twin_b.txt"))
+    steps = 0
+    for si in range(min(len(scripts), len(ta), len(tb))):
+        ops = [[int(x) for x in l.split()] for l in scripts[si][1:]]
+        ia, ib = {}, {}          # (id, gen) -> index in issue order, per world
+        na = nb = 0
+        foreign = 0              # handles issued before the last Reset of this history no longer belong to the world
+        for k in range(min(len(ops), len(ta[si]), len(tb[si]))):
+            a, b = L.parse_obs(ta[si][k]), L.parse_obs(tb[si][k])
+            steps += 1
+            # handles issued by this step: creation results and batch-callback log entries
+            def issue(st, idx, cnt, op):
+                new = []
+                if st["err"] == 0 and op[0] in (0, 1, 2, 4) and len(st["res"]) >= 2:
+                    new = [tuple(st["res"][:2])]
+                elif st["err"] == 0 and op[0] in (3, 30):
+                    new = [tuple(l[1:3]) for l in st["log"] if l and l[0] == 101]
+                for h in new:
+                    idx[h] = cnt; cnt += 1
+                return cnt
+            na = issue(a, ia, na, ops[k]); nb = issue(b, ib, nb, ops[k])
+
+            def ent(idx, i, g):
+                if i == 0 and g == 0:
+                    return -1
+                return idx.get((i, g), "anon")    # created by a callback-free batch: no handle was handed out
+
+            def snap(idx, t):
+                return tuple((t[j], t[j + 1], ent(idx, t[j + 2], t[j + 3])) for j in range(0, len(t) - 3, 4))
+
+            def view(st, idx, op):
+                res = ()
+                if st["err"] == 0:
+                    c = op[0]
+                    if c in (0, 1, 2, 4):
+                        res = (ent(idx, *st["res"][:2]),)
+                    elif c == 18 and len(st["res"]) >= 2:
+                        r = st["res"]
+                        res = (r[0], r[1], tuple(sorted(str(ent(idx, i, g)) for i, g in zip(r[2::2], r[3::2]))))
+                    elif c == 35 and len(st["res"]) >= 2:
+                        res = (ent(idx, *st["res"][:2]),)
+                    elif c in (14, 38, 23, 24, 20):
+                        res = ()
+                    else:
+                        res = tuple(st["res"])
+                logs = []
+                for l in st["log"]:
+                    if l and l[0] == 100 and len(l) >= 7:
+                        logs.append(str((100, l[1], ent(idx, l[2], l[3]), l[4], l[5], l[6], snap(idx, l[8:]) if len(l) > 8 else ())))
+                    elif l and l[0] == 101:
+                        logs.append(str((101, ent(idx, l[1], l[2]))))
+                    else:
+                        logs.append(str(l))
+                hs = tuple((f, snap(idx, t) if f == 1 else ()) for f, t in st["handles"][foreign:])
+                return (st["err"], res, tuple(sorted(logs)), hs, st["used"], st["locked"])
+            if ops[k][0] == 13 and a["err"] == 0 and b["err"] == 0:
+                foreign = len(a["handles"])
+                ia, ib = {}, {}
+            va, vb = view(a, ia, ops[k]), view(b, ib, ops[k])
+            if mode == "shrink" and ops[k][0] == 14:
+                # world B executed Stats instead of Shrink: compare the world, not the call
+                va, vb = (0, (), ()) + va[3:], (0, (), ()) + vb[3:]
+            if va != vb:
+                names = ["failure flag", "result", "callback log", "issued handles (alive, components, values, targets)", "used entities", "lock flag"]
+                which = [names[i] for i in range(6) if va[i] != vb[i]]
+                p = L.write_replay(pid, "twin", dict(
+                    detail=("a world that was used and Reset behaves differently from a new world at step %d of the second history (%s): %s differ" if mode == "reset" else
+                            "the history with its Shrink calls behaves differently from the same history without them at step %d (%s): %s differ") % (
+                        k, L.OP_NAMES.get(ops[k][0], ops[k][0]), ", ".join(which)),
+                    config=scripts[si][0], second_history=scripts[si][1:k + 2], reset_world=str(va)[:1500], new_world=str(vb)[:1500],
+                    how_to_run="build/arkh twin -mode %s -seed %d -n %d -out <dir>  (script %d)" % (mode, seed + 5, n, si)))
+                out["violations"].append((p, "")); 
+                out["coverage"][mode + "_twin"] = dict(scripts=si + 1, steps_compared=steps)
+                return
+    out["coverage"][mode + "_twin"] = dict(scripts=min(len(scripts), len(ta), len(tb)), steps_compared=steps)
+
+
 def rewrite_cfg(lines, bits, debug):
     head = lines[0].split()
     head[2] = str(bits); head[3] = "1" if debug else "0"
@@ -70,6 +171,14 @@ def run(pid, cfg, tier, seed, arkh, tmp):
     if sp == "typed":
         out = gotests(pid, sp, tier, seed)
         wiring(pid, out, tmp)
+        return out
+    if sp == "resettwin":
+        out = dict(coverage={}, samples=[], violations=[])
+        reset_twin(pid, out, tier, seed, arkh, tmp)
+        return out
+    if sp == "shrinktwin":
+        out = dict(coverage={}, samples=[], violations=[])
+        shrink_twin(pid, out, tier, seed, arkh, tmp)
         return out
     if sp in ("race", "codec", "registry", "gcsafe"):
         return gotests(pid, sp, tier, seed)
